@@ -84,12 +84,22 @@ static bool check_query(const zp::Zone& z, const zp::Handle& h, int64_t t, std::
   if (t == INT64_MAX && gn) { *why = "next_transition(max()) returned true"; return false; }
   const bool legacy = m.pre_first_unspecified;  // the model does not know the type in force before the first transition
   auto first_change = [&](const Real& x) { return legacy && !m.f.trans.empty() && x.t <= m.f.trans.front().t; };
-  if (gn && legacy && (!en || first_change(r) || !refcal::fits64(r.t))) {
+  // the instant of a change cctz reports, from cctz's own lookups (legacy files only: is it the first transition of
+  // the file?  Whether anything changes there depends on the type in force before it, which the model does not know:
+  // cctz may report it where the model sees none, and the other way round)
+  auto reported_at_first = [&](const cctz::time_zone::civil_transition& x) {
+    if (!legacy || m.f.trans.empty()) return false;
+    const auto cl = h.lookup(x.to);
+    return zp::unix_of(cl.kind == cctz::time_zone::civil_lookup::UNIQUE ? cl.pre : cl.trans) == m.f.trans.front().t;
+  };
+  if (gn && legacy && (!en || first_change(r) || !refcal::fits64(r.t) || reported_at_first(tr))) {
     // only the clauses that involve cctz alone: from/to agree with lookup() around the reported change
     const auto cl = h.lookup(tr.to);
     const int64_t T = zp::unix_of(cl.kind == cctz::time_zone::civil_lookup::UNIQUE ? cl.pre : cl.trans);
     const auto a = h.lookup(T - 1), b = h.lookup(T);
     if (T > INT64_MIN && (b.cs != tr.to || a.cs + 1 != tr.from)) { *why = "from/to of " + show(tr) + " disagree with lookup() at the change (legacy type-0 file)"; return false; }
+    if (T > INT64_MIN && a.offset == b.offset && a.is_dst == b.is_dst && std::string(a.abbr) == b.abbr) { *why = "lookup() does not differ across reported transition " + show(tr) + " (legacy type-0 file)"; return false; }
+    if (T <= t) { *why = "next_transition(" + vf::i64_str(t) + ") reported a change that is not strictly later: " + show(tr) + " (legacy type-0 file)"; return false; }
     EV->unspec("first_change_of_legacy_type0_file(model_silent)");
   } else if (gn) {
     if (!en || !matches(tr, r)) {
@@ -113,11 +123,13 @@ static bool check_query(const zp::Zone& z, const zp::Handle& h, int64_t t, std::
   const bool gp = h.prev(t, &tr);
   const bool ep = model_prev(m, t, &r);
   if (t == INT64_MIN && gp) { *why = "prev_transition(min()) returned true"; return false; }
-  if (gp && legacy && (!ep || first_change(r))) {
+  if (gp && legacy && (!ep || first_change(r) || reported_at_first(tr))) {
     const auto cl = h.lookup(tr.to);
     const int64_t T = zp::unix_of(cl.kind == cctz::time_zone::civil_lookup::UNIQUE ? cl.pre : cl.trans);
     const auto a = h.lookup(T - 1), b = h.lookup(T);
     if (T > INT64_MIN && (b.cs != tr.to || a.cs + 1 != tr.from)) { *why = "from/to of " + show(tr) + " disagree with lookup() at the change (legacy type-0 file, prev)"; return false; }
+    if (T > INT64_MIN && a.offset == b.offset && a.is_dst == b.is_dst && std::string(a.abbr) == b.abbr) { *why = "lookup() does not differ across reported transition " + show(tr) + " (legacy type-0 file, prev)"; return false; }
+    if (T >= t) { *why = "prev_transition(" + vf::i64_str(t) + ") reported a change that is not strictly earlier: " + show(tr) + " (legacy type-0 file)"; return false; }
   } else if (gp) {
     if (!ep) { *why = "prev_transition(" + vf::i64_str(t) + ") reported " + show(tr) + " but the zone has no earlier change"; return false; }
     if (!matches(tr, r)) {
